@@ -4,10 +4,12 @@ package main
 // on-disk index codecs.
 
 import (
+	"bufio"
 	"bytes"
 	"encoding/json"
 	"errors"
 	"fmt"
+	"io"
 	"runtime"
 	"sort"
 	"strings"
@@ -194,6 +196,21 @@ func checkIndexCase(c *ixCase, codecName string, exp *ixCodec) (string, string) 
 	}
 	if idx2.Codec() != codec {
 		return "readfrom-codec", "codec changed"
+	}
+	// the same bytes through sources that return less than asked for (pipes, sockets, decompressors):
+	// the index read back must serialize to the same bytes
+	for _, src := range []struct {
+		name string
+		r    io.Reader
+	}{{"one byte per Read", &chunkReader{bytes.NewReader(first), 1}}, {"7 bytes per Read", &chunkReader{bytes.NewReader(first), 7}}, {"bufio.Reader(16)", bufio.NewReaderSize(&chunkReader{bytes.NewReader(first), 5}, 16)}} {
+		idx3, err := index.ReadFrom(src.r)
+		if err != nil {
+			return "readfrom-error/short-reads", fmt.Sprintf("source with %s: %v", src.name, err)
+		}
+		var again bytes.Buffer
+		if _, err := index.WriteTo(idx3, &again); err != nil || !bytes.Equal(again.Bytes(), first) {
+			return "readfrom-differs/short-reads", fmt.Sprintf("source with %s: the index read back serializes to %d bytes that differ from the %d read (err=%v)", src.name, again.Len(), len(first), err)
+		}
 	}
 	for name, a := range exp.Ans {
 		var q ixRec
